@@ -413,17 +413,37 @@ def ident_cases(tier):
     yield {'text': 'a {\n  /* two\nlines */ top: 0 }', 'tag': 'multiline-comment'}
     for t in ['.\\31 a { top: 0 }', 'a { b: \\26 x }', '#a\\.b { top: 0 }', 'a\\ b { top: 0 }', '.a\\+b { top: 0 }']:
         yield {'text': t}
+    # every place a name can stand x names holding a character (written as an escape) that cannot stand there as it is
+    places = ['%s { top: 0 }', '.%s { top: 0 }', '#%s { top: 0 }', 'a[%s] { top: 0 }', 'a[b=%s] { top: 0 }', 'a:lang(%s) { top: 0 }',
+              'a { %s: 0 }', 'a { b: %s }', 'a { b: c %s d }', 'a { b: f(%s) }', 'a { width: 1%s }', '@namespace %s "u"; %s|a { top: 0 }',
+              '@%s x;', '@media print { .%s { top: 0 } }', '@page { b: %s }', '@font-face { font-family: %s }', 'a { b: %s !important }',
+              'a > .%s + #%s ~ %s { top: 0 }', '@media screen and (scan: %s) { a { top: 0 } }']
+    # (not 5c: a hex-escaped backslash becomes a bare backslash in the token value, which everything downstream reads as an escape
+    # introducer - the listed finding F10-13)
+    codes = [0x31, 0x26, 0x20, 0x29, 0x3b, 0x7b, 0x9, 0x1, 0x2c, 0x2e, 0x3a, 0x40, 0x22, 0x7f, 0x2a, 0x23, 0x2f, 0x28, 0x5b]
+    for pi, place in enumerate(places):
+        for code in codes:
+            for shape in ('\\%x x', 'x\\%x y', 'x\\%x ', '\\%06x', '-\\%x x'):
+                if tier == 'quick' and (pi + code + len(shape)) % 3:
+                    continue
+                name = shape % code
+                yield {'text': place.replace('%s', name), 'tag': 'sweep'}
 
 
 def check_ident(case, ctx):
     ctx.case(case['text'], True, case)
     with lib('parse'):
         sheet = parser().parseString(case['text'])
+    if case.get('tag') == 'sweep' and not [r for r in sheet.cssRules]:
+        ctx.event('ident-sweep:not-accepted-by-the-parser')
+        return
     try:
         roundtrip_sheet(sheet, case['text'])
     except Violation as v:
         if case.get('tag') == 'multiline-comment':
             raise Violation('comment:multi-line-comment-in-block-reindented', v.msg)
+        if case['text'].startswith(('@namespace \\3a', '@namespace \\00003a')):
+            raise Violation('ident:escaped-colon-prefix-read-as-pseudo', v.msg)
         raise Violation('ident:needs-escape-written-raw', v.msg)
 
 
